@@ -67,7 +67,7 @@ class C06(object):
     rule = ("one run = (kernel score|score_and_refine|refine_assigned, UBI good or poor, 0..20000 peaks from integer "
             "hkl up to |h|~1000 + noise mixed with random vectors, tolerance, label selection incl. empty/coplanar) "
             "executed twice with complementary garbage on the simulator-owned stack and in the outputs; distinct = "
-            "distinct (kernel, input digest); non-trivial = at least one peak indexed")
+            "distinct (kernel, input digest); non-trivial = at least one peak indexed; in part of the runs also: concurrent caller threads, teams up to 8 with lists beyond 4096 peaks, non-finite and exactly coplanar g-vectors, matrices in other memory layouts through the wrapper, indexer.getind/score trial sequences on shared buffers (optionally ring-assigned, tolerance reassigned between trials)")
     components = {"real": enginea.COMPONENTS_REAL + ["score, score_and_refine, refine_assigned, inverse3x3 (machine code)",
                                                        "ImageD11.indexing.calc_drlv2 (second opinion for the count)"],
                   "stub": enginea.COMPONENTS_STUB}
